@@ -48,7 +48,7 @@ const (
 )
 
 type Ev struct {
-	K  string `json:"k"` // set | tun | ans | allow | uapi
+	K  string `json:"k"` // set | tun | ans | allow | uapi | refinit | refdata
 	V  uint64 `json:"v,omitempty"`
 	N  int    `json:"n,omitempty"`
 	On bool   `json:"on,omitempty"`
@@ -90,6 +90,7 @@ type StressCfg struct {
 	PaceUs    int   `json:"pace_us"`
 	AnsDelay  int   `json:"answer_delay_ms"` // the remote party answers initiations after 0..2*AnsDelay ms
 	KA        int   `json:"keepalive_flushers"`
+	DownUp    bool  `json:"down_up"` // prelude: Down; TUN packets for configured peers while down; Up
 }
 
 type Case struct {
@@ -160,6 +161,8 @@ func runSeq(evs []Ev, bindBatch int) ([]Ev, []Obs, bool) {
 	var lastInit []byte
 	nextID := uint64(1)
 	pka := 0
+	var lastRefSess *ref.Session
+	var lastRefInit time.Time
 	var aev []Ev
 	var obs []Obs
 	slow := false
@@ -208,6 +211,38 @@ func runSeq(evs []Ev, bindBatch int) ([]Ev, []Obs, bool) {
 			o.PkaOn = pka == 0 && want != 0
 			pka = want
 			_, out = w.Set(fmt.Sprintf("public_key=%s\npersistent_keepalive_interval=%d\n", hex.EncodeToString(p.Pub[:]), want))
+		case "refinit":
+			// the remote party initiates: the device is the RESPONDER of the new session
+			if d := time.Since(lastRefInit); d < 25*time.Millisecond {
+				time.Sleep(25*time.Millisecond - d) // HandshakeInitationRate
+			}
+			st, o2, sess, err := w.RefInitiates(p, p.Addr, ref.Tai64n(time.Now()))
+			lastRefInit = time.Now()
+			out = o2
+			o.Idx = st.SenderIdx
+			lastInit = nil // our own pending initiation is forgotten by the device
+			// exactly one response, which the remote party accepts, is expected; it is not a C04 observable
+			var rest []sim.Sent
+			resp := 0
+			for _, s := range out.Sent {
+				if len(s.Data) == ref.ResponseSize && s.Data[0] == ref.TypeResponse {
+					resp++
+				} else {
+					rest = append(rest, s)
+				}
+			}
+			out.Sent = rest
+			if err != nil || resp != 1 {
+				out.Sent = append(out.Sent, sim.Sent{Data: []byte{0xff}}) // anomaly: counted as a mismatch
+			} else {
+				lastRefSess = sess
+			}
+		case "refdata":
+			if lastRefSess == nil {
+				continue
+			}
+			inner := stress.Packet([4]byte{10, 0, 0, 2}, [4]byte{10, 9, 9, 9}, 40, 0, 0)
+			out = w.Inject(p.Addr, lastRefSess.Next(ref.Pad(inner)))
 		default:
 			continue
 		}
@@ -244,6 +279,10 @@ func clip(n int) int {
 func genSeq(r *rand.Rand) ([]Ev, string) {
 	evs := []Ev{{K: "tun", N: 1 + r.Intn(5)}, {K: "ans"}}
 	kind := "mixed"
+	if r.Intn(3) == 0 { // start as responder
+		evs = []Ev{{K: "refinit"}, {K: "refdata"}, {K: "allow"}}
+		kind = "responder"
+	}
 	steps := 5 + r.Intn(14)
 	for i := 0; i < steps; i++ {
 		switch x := r.Intn(100); {
@@ -264,9 +303,16 @@ func genSeq(r *rand.Rand) ([]Ev, string) {
 				n = 1 + r.Intn(6)
 			}
 			evs = append(evs, Ev{K: "tun", N: n})
-		case x < 80:
+		case x < 76:
 			evs = append(evs, Ev{K: "ans"})
-		case x < 90:
+		case x < 81:
+			evs = append(evs, Ev{K: "refinit"})
+			if r.Intn(3) != 0 {
+				evs = append(evs, Ev{K: "refdata"})
+			}
+		case x < 84:
+			evs = append(evs, Ev{K: "refdata"})
+		case x < 92:
 			evs = append(evs, Ev{K: "allow"})
 		default:
 			evs = append(evs, Ev{K: "uapi", On: r.Intn(2) == 0})
@@ -294,6 +340,12 @@ func directed() [][]Ev {
 			n = clip(int(Reject-v) + (i%5 - 2))
 		}
 		out = append(out, []Ev{{K: "tun", N: 1}, {K: "ans"}, {K: "allow"}, {K: "set", V: v}, {K: "tun", N: n}, {K: "tun", N: 1 + i%3}, {K: "ans"}, {K: "tun", N: 2}})
+		// the same boundary on a session where the device is the RESPONDER (every other one after an initiator session)
+		pre := []Ev{{K: "refinit"}, {K: "refdata"}, {K: "allow"}}
+		if i%2 == 1 {
+			pre = []Ev{{K: "tun", N: 1}, {K: "ans"}, {K: "refinit"}, {K: "refdata"}, {K: "allow"}}
+		}
+		out = append(out, append(pre, Ev{K: "set", V: v}, Ev{K: "tun", N: n}, Ev{K: "tun", N: 1 + i%3}, Ev{K: "ans"}, Ev{K: "tun", N: 2}))
 	}
 	return out
 }
@@ -480,6 +532,20 @@ func runStress(c StressCfg) Case {
 		}
 	}()
 
+	if c.DownUp {
+		// interface down; the TUN still delivers packets for configured (stopped) peers; interface up again
+		w.Dev.Down()
+		for k := 0; k < 3; k++ {
+			for i := range peers {
+				w.Tun.Inject(stress.Packet([4]byte{10, 9, 9, 9}, [4]byte{10, 0, byte(i), 2}, 60+k, uint64(i), 0))
+			}
+			w.Settle()
+		}
+		w.Dev.Up()
+		for _, p := range peers {
+			w.Dev.VerifShiftHandshakeTimes(cosim.NoisePK(p.Pub), 6*time.Second)
+		}
+	}
 	// initial sessions: the device initiates towards every peer
 	for i := range peers {
 		w.Tun.Inject(stress.Packet([4]byte{10, 9, 9, 9}, [4]byte{10, 0, byte(i), 2}, 40, uint64(i), 0))
@@ -823,6 +889,10 @@ func gallinaSeq(c Case) string {
 			b.WriteString("eAllow")
 		case "uapi":
 			fmt.Fprintf(&b, "eUapi %v", o.PkaOn)
+		case "refinit":
+			fmt.Fprintf(&b, "eRefInit %d", o.Idx)
+		case "refdata":
+			b.WriteString("eRefData")
 		}
 		b.WriteString(", mko [")
 		for k := 0; k < len(o.Tx); {
@@ -1010,7 +1080,7 @@ func main() {
 		for i := 0; i < *worlds; i++ {
 			c := StressCfg{Seed: *seed*1000 + int64(i), Peers: 1 + i%3, BindBatch: []int{1, 8, 128, 32}[r.Intn(4)], TunBatch: []int{128, 16, 1, 64}[r.Intn(4)],
 				Procs: procs[i%len(procs)], Hogs: []int{0, 2, 6}[r.Intn(3)], OneIn: []int{0, 4, 16, 64}[r.Intn(4)], MaxSleep: []int{20, 100, 400}[r.Intn(3)],
-				DurMs: *durMs, Phases: 8, Expire: true, PaceUs: []int{150, 400, 1000}[r.Intn(3)], AnsDelay: []int{0, 5, 30, 30}[r.Intn(4)], KA: 1 + r.Intn(3)}
+				DurMs: *durMs, Phases: 8, Expire: true, PaceUs: []int{150, 400, 1000}[r.Intn(3)], AnsDelay: []int{0, 5, 30, 30}[r.Intn(4)], KA: 1 + r.Intn(3), DownUp: i%2 == 1}
 			if c.Procs > runtime.NumCPU() {
 				c.Procs = runtime.NumCPU()
 			}
